@@ -2,6 +2,7 @@ package simnet
 
 import (
 	"bytes"
+	"context"
 	"errors"
 	"fmt"
 	"io"
@@ -48,6 +49,16 @@ func NewTransport(yield func(string)) *Transport {
 	return &Transport{Hosts: map[string]*HostScript{}, Yield: yield}
 }
 
+// expired is the seam after a request was given up by the client (time-out or cancellation): requests
+// that started at the same simulated instant time out at the same instant, their goroutines wake
+// together, and what they do next (hand their result to the fan-in channel, fetch the next workload)
+// depends on their order. Parking them here lets the scheduler, not the Go runtime, decide it.
+func (t *Transport) expired(yield func(string), host string, n int) {
+	if yield != nil {
+		yield(fmt.Sprintf("expired %s attempt %d", host, n))
+	}
+}
+
 // RoundTrip implements http.RoundTripper.
 func (t *Transport) RoundTrip(req *http.Request) (*http.Response, error) {
 	host := req.URL.Hostname()
@@ -56,6 +67,17 @@ func (t *Transport) RoundTrip(req *http.Request) (*http.Response, error) {
 	// between "context done" and "next workload" in a select with both cases ready, which the Go
 	// runtime resolves at random; the extra requests this produces never reach a seam.)
 	if err := req.Context().Err(); err != nil {
+		if errors.Is(err, context.DeadlineExceeded) {
+			// a retry after the request time-out: goProbe's client keeps sleeping through its back-off
+			// intervals and retries with the expired context. Requests that timed out together wake
+			// together from every one of these sleeps, so each of them is a seam as well.
+			t.mu.Lock()
+			yield := t.Yield
+			t.mu.Unlock()
+			if yield != nil {
+				yield(fmt.Sprintf("request %s after its time-out", host))
+			}
+		}
 		return nil, err
 	}
 	if req.Body != nil {
@@ -92,6 +114,7 @@ func (t *Transport) RoundTrip(req *http.Request) (*http.Response, error) {
 		select {
 		case <-time.After(a.Delay):
 		case <-req.Context().Done():
+			t.expired(yield, host, n)
 			return nil, req.Context().Err()
 		}
 	}
@@ -103,6 +126,7 @@ func (t *Transport) RoundTrip(req *http.Request) (*http.Response, error) {
 		return nil, errors.New("dial tcp: connection refused")
 	case "hang":
 		<-req.Context().Done() // partition: nothing comes back until the request times out
+		t.expired(yield, host, n)
 		return nil, req.Context().Err()
 	case "status":
 		return &http.Response{StatusCode: a.Code, Status: http.StatusText(a.Code), Header: http.Header{"Content-Type": {"application/json"}},
